@@ -10,15 +10,15 @@ pub open spec fn read_natural_post<I: ByteSrc>(pre: BitIter<I>, post: BitIter<I>
                     && post.total_read == pre.total_read + enc_nat(v as nat).len()
                     && post.wf()
                     // canonicity: no other number's code starts this stream
-                    && (forall|m: nat| m >= 1 && enc_nat(m).is_prefix_of(pre.pending()) ==> m == v),
+                    && (forall|m: nat| m >= 1 && #[trigger] enc_nat(m).is_prefix_of(pre.pending()) ==> m == v),
                 Err(DecodeNaturalError::BadIndex { got, max }) => bound == Some(max) && got > max && got <= u32::MAX
                     && pre.pending() =~= enc_nat(got as nat) + post.pending()
-                    && (forall|m: nat| m >= 1 && enc_nat(m).is_prefix_of(pre.pending()) ==> m == got),
+                    && (forall|m: nat| m >= 1 && #[trigger] enc_nat(m).is_prefix_of(pre.pending()) ==> m == got),
                 // the stream ends inside a code: it starts with no number's code
                 Err(DecodeNaturalError::EndOfStream(_)) => post.pending().len() == 0
-                    && (forall|m: nat| m >= 1 ==> !enc_nat(m).is_prefix_of(pre.pending())),
+                    && (forall|m: nat| m >= 1 ==> !#[trigger] enc_nat(m).is_prefix_of(pre.pending())),
                 // rejected, not truncated: only numbers above u32::MAX could have a code starting this stream
                 Err(DecodeNaturalError::Overflow) =>
-                    (forall|m: nat| m >= 1 && enc_nat(m).is_prefix_of(pre.pending()) ==> m > u32::MAX),
+                    (forall|m: nat| m >= 1 && #[trigger] enc_nat(m).is_prefix_of(pre.pending()) ==> m > u32::MAX),
             }
 }
